@@ -11,6 +11,7 @@ from vlib.runner import Eval
 
 ID = "C01"
 LEVEL = "exploration"
+CGF_RUNS = {"thorough": 3000}  # coverage-guided stage (vlib/cgf.py): libFuzzer executions per worker, 16 workers
 RULE = (
     "Cases are (rule, listing) pairs built by describing a window of a generated listing with literal names "
     "(substrings, or whole names) and then applying at most one near-miss mutator (class drawn first); every pair is "
